@@ -27,7 +27,7 @@ REL = 1e-9
 
 
 def budget(tier):
-    return {"shards": 8 if tier == "quick" else 14, "deadline_s": 45 if tier == "quick" else 900}
+    return {"shards": 14, "deadline_s": 45 if tier == "quick" else 900}
 
 
 def interp(points, m):
@@ -207,7 +207,7 @@ def gen_case(rng):
 
 
 def run(ctx):
-    total = 2500 if ctx.tier == "quick" else 120000
+    total = 9000 if ctx.tier == "quick" else 300000
     for _ in range(ctx.share(total)):
         if not ctx.time_left():
             break
